@@ -3,7 +3,7 @@
     names()            -> list of start-model ids
     get(name)          -> Model (cached per process; models are immutable)
 
-Ids: 'pheno' (example model), 'pheno_real' / 'mox2' / ... (checked-in test models that load
+Ids: 'pheno' (example model), 'basic_iv_nm' / 'basic_oral_nm' (the basic models converted to NONMEM), 'pheno_real' / 'mox2' / ... (checked-in test models that load
 in this environment, looked up at run time), 'basic_iv' / 'basic_oral' (create_basic_pk_model
 with a small generated event dataset).
 """
@@ -66,6 +66,10 @@ def get(name: str):
             df.to_csv(path, index=False)
             m = create_basic_pk_model('iv' if name == 'basic_iv' else 'oral', dataset_path=path)
             return m
+        if name in ('basic_iv_nm', 'basic_oral_nm'):
+            from pharmpy.modeling import convert_model
+
+            return convert_model(get(name[:-3]), 'nonmem')
         for cid, rel in CANDIDATES:
             if cid == name:
                 return read_model(os.path.join(TESTDATA, rel))
@@ -74,7 +78,7 @@ def get(name: str):
 
 @functools.lru_cache(maxsize=None)
 def names():
-    out = ['pheno', 'basic_iv', 'basic_oral']
+    out = ['pheno', 'basic_iv', 'basic_oral', 'basic_iv_nm', 'basic_oral_nm']
     for cid, rel in CANDIDATES:
         if os.path.exists(os.path.join(TESTDATA, rel)):
             try:
